@@ -605,4 +605,42 @@ Section Clone.
     - intros x Hx. destruct (B x Hx) as [[]|]; assumption.
     - exact Ia.
   Qed.
+
+  (** every child of an accepted object was itself walked, from a seen set that had grown *)
+  Lemma check_kids_each n h : forall ks s0 s1, check_kids n h ks s0 = Some s1 ->
+    forall k c, In (k, c) ks -> exists sc sc', incl s0 sc /\ check n h sc c = Some sc'.
+  Proof.
+    induction ks as [|[k0 c0] r IHr]; intros s0 s1 H k c Hin; [destruct Hin|]. cbn in H.
+    destruct (check n h s0 c0) as [s2|] eqn:Ec; [|discriminate].
+    destruct Hin as [[= <- <-]|Hin].
+    - exists s0, s2. split; [apply incl_refl|exact Ec].
+    - destruct (IHr _ _ H _ _ Hin) as (sc & sc' & I & C). exists sc, sc'. split; [|exact C].
+      destruct (check_sound _ _ _ _ _ Ec) as (_ & _ & I0 & _). eapply incl_tran; eauto.
+  Qed.
+
+  (** nothing reachable from an accepted object had been seen before *)
+  Lemma check_reach_unseen : forall n h seen a s, check n h seen a = Some s ->
+    forall b, reach h a b -> ~ In b seen.
+  Proof.
+    induction n as [|n IH]; intros h seen a s H b Hr; [discriminate|].
+    rewrite check_unfold in H. destruct (existsb (Nat.eqb a) seen) eqn:Ex; [discriminate|].
+    destruct (nth_error h a) as [nd|] eqn:En; [|discriminate].
+    destruct Hr as [a|a nd' k c b Hn Hk Hr].
+    - intros Hin. apply existsb_eqb_iff in Hin. congruence.
+    - rewrite En in Hn. injection Hn as <-.
+      destruct (check_kids_each _ _ _ _ _ H _ _ Hk) as (sc & sc' & I & C).
+      intros Hin. apply (IH _ _ _ _ C _ Hr). apply I. now right.
+  Qed.
+
+  (** cycles are rejected: an object that reaches itself through a child is never accepted,
+      whatever the budget and the set seen so far *)
+  Theorem check_rejects_cycle n h seen a nd k c :
+    nth_error h a = Some nd -> In (k, c) (hn_kids nd) -> reach h c a -> check n h seen a = None.
+  Proof.
+    intros En Hk Hr. destruct (check n h seen a) as [s|] eqn:H; [exfalso|reflexivity].
+    destruct n as [|n]; [discriminate|]. rewrite check_unfold in H.
+    destruct (existsb (Nat.eqb a) seen); [discriminate|]. rewrite En in H.
+    destruct (check_kids_each _ _ _ _ _ H _ _ Hk) as (sc & sc' & I & C).
+    apply (check_reach_unseen _ _ _ _ _ C _ Hr). apply I. now left.
+  Qed.
 End Clone.
